@@ -322,6 +322,13 @@ func (fc *FnCtx) emitAxioms() {
 		if t == "true" {
 			continue
 		}
+		if len(lm.Params) == 0 {
+			var ufNames []string
+			for n := range fc.eng.ufs {
+				ufNames = append(ufNames, sym(n))
+			}
+			t = patternedAxiom(t, ufNames)
+		}
 		pos := fc.vc.sc.pos()
 		fc.vc.sc.assert(t)
 		// the axiom is included in a query only when one of its uninterpreted
